@@ -154,6 +154,8 @@ pub fn base_passwords() -> Vec<Pw> {
         pw("pässwörd", "pw-latin1"),
         pw("密码", "pw-cjk"),
         pw("🔑🔑", "pw-nonbmp"),
+        // white space at both ends is part of the password (a line read from a file keeps its line end)
+        pw(" edge blanks\r\n", "pw-edge-whitespace"),
     ]
 }
 
@@ -165,6 +167,7 @@ pub fn extra_passwords() -> Vec<Pw> {
         pw("PASSWORD", "pw-uppercase"),
         pw("password ", "pw-trailing-space"),
         pw(" ", "pw-space-only"),
+        pw("\u{3000}構造\t", "pw-unicode-edge-whitespace"),
         pw("P@ssw0rd!<&\"'>", "pw-xml-specials"),
         pw(&"x".repeat(254), "pw-254chars"),
         pw(&"0123456789".repeat(10), "pw-100chars"),
